@@ -9,3 +9,6 @@ func Yield(site string) {}
 
 // BeforeWrite is called before a write reaches the object store or the ref store.
 func BeforeWrite(kind string) error { return nil }
+
+// BeforeRead is called before a read of an object reaches the object store.
+func BeforeRead(kind string) error { return nil }
